@@ -18,6 +18,7 @@ func realStdlib(name string) bool {
 		strings.HasPrefix(name, "(*encoding/binary.bigEndian)."),
 		name == "errors.New",
 		name == "bytes.Equal",
+		strings.HasPrefix(name, "unicode/utf8."),
 		strings.HasPrefix(name, "(*errors.errorString)."):
 		return true
 	}
